@@ -333,6 +333,7 @@ package factory
 //@ ghost after call append #1: NamesSrc = store(NamesSrc, len(names) - 1, _idx)
 //@ ghost after call append #1: NamesPos = store(NamesPos, _idx, len(names) - 1)
 //@ loop 2 invariant [state] FInv(f) && !Reg(f).HasHole && forall(n, string, !Reg(f).IC[n]) && Failed == old(Failed) && Refreshed == old(Refreshed) && RanLen == old(RanLen) && CreatedLen == c0 + _done
+//@ loop 2 invariant [names-still-non-lazy-definitions] forall(k, int, implies(0 <= k && k < len(names), f.definitionRegistry.DefDom[names[k]] && !IsLazy(f.definitionRegistry.Def[names[k]])), names[k])
 //@ loop 2 invariant [created-so-far] forall(k, int, implies(0 <= k && k < _done, Reg(f).L1Dom[names[k]]), names[k])
 //@ loop 2 invariant [trace] forall(a, int, implies(c0 <= a && a < c0 + _done, CreatedAt[a] == names[a - c0]), CreatedAt[a])
 
